@@ -58,6 +58,39 @@ CLAIMS = {
              "through the copy family. A Push may accept or reject bytes beyond Size (only readers must report them).",
         ref="3 C05", technique="TLA+ requirement + transcribed algorithm model-checked with TLC; TLC-emitted cases replayed "
                               "into the code and judged by TLC"),
+    "C06": dict(
+        text="StoreModel.tla states the stores as a content set plus a tag map with the required result and effect of "
+             "Push/Fetch/Exists/Tag/Resolve/Untag/Delete/Tags; MCStore.tla explores the model exhaustively; random "
+             "operation histories (repeats, re-tags, missing content, empty and unknown references, named and unnamed "
+             "file-store blobs) are executed on the real memory, OCI-layout and file stores and StoreMon.tla replays "
+             "the model alongside, comparing every result and the full observable projection after every step.",
+        note="Sequential histories; the concurrent clause (quiescent state equals some sequential order) is not yet "
+             "exercised by this check. References are never another node's digest string.",
+        ref="3 C06", technique=TECH + " (StoreMon.tla, deterministic model replayed against recorded histories)"),
+    "C07": dict(
+        text="Same histories and model; after every step Predecessors is read for every node of the universe (present or "
+             "not) from the live store and, for OCI layouts, from the layout reopened read-write, through os.DirFS and "
+             "from a tar of it, and compared as a set and for duplicates with Pred of the model, including after "
+             "Delete, GC and reopen and for every push order the generator draws.",
+        note="Known finding F14 (a reachable manifest de-listed by GC is unknown to a reopened layout once its tagged "
+             "ancestor is deleted without AutoGC) is matched by signature and not counted.",
+        ref="3 C07", technique=TECH + " (StoreMon.tla PredExact / LivePred / ReopenPred)"),
+    "C08": dict(
+        text="OCI-layout histories of Push/Tag/Untag/Delete/GC/SaveIndex with AutoSaveIndex and AutoGC on and off; after "
+             "every mutating step the raw directory is read (oci-layout and index.json parse, every blob file name is the "
+             "digest of its bytes, every named index entry points to an existing blob of the recorded size, named "
+             "entries equal the model's tag map) and the layout is reopened three ways; every observation must equal "
+             "the model state, hence the live store.",
+        note="With AutoSaveIndex off the driver calls SaveIndex before looking at the directory, as the property allows.",
+        ref="3 C08", technique=TECH + " (StoreMon.tla Disk* / Reopen*)"),
+    "C09": dict(
+        text="DelSet and GCResult of StoreModel.tla are the required effects written from the property; MCStore.tla checks "
+             "on every universe of 3-4 nodes and every history of <= 5-7 operations that they never remove a linked or "
+             "tagged node, never touch another tag, are maximal, keep everything reachable and are idempotent; on the "
+             "real OCI store every Delete (AutoGC on/off) and GC (also with stray blob files) must return ok, terminate "
+             "(watchdog) and leave exactly the model's content, tags and predecessor relation.",
+        note="Fixed in /repo while building this check: F1 F2 F3 F5 F15 (see known_findings.json).",
+        ref="3 C09", technique=TECH + " (MCStore.tla invariants; StoreMon.tla OpResult / Live* after delete and gc)"),
     "C19": dict(
         text="Pack.tla states the four packers as a decision table over (version, artifactType class, config class, "
              "config annotations, layers, subject, annotations, target); PackCases.tla model-checks the table and emits "
